@@ -10,7 +10,7 @@ From AV Require Import Base.Util Model.Consumer.
 Strategy 1000 [bind ret raise try swallow emit get upd].
 Strategy 900 [startd_errback do_fetch retry_fetch handle_offset_response
   handle_offset_error handle_fetch_error handle_auto_commit_error handle_processor_error send_commit_request commit
-  auto_commit proc_chain pop_plan emit_shutd interrupted api_stop api_commit handle_commit_error fire_all finish_block
+  auto_commit proc_chain pop_plan emit_shutd interrupted api_stop api_commit api_shutdown handle_commit_error fire_all finish_block
   stop_req stop_mblock stop_proc stop_rcall stop_creq stop_ccall stop_looper stop_susp stop_startd flush_pend].
 Strategy 800 [body].  Strategy 700 [run].  Strategy 600 [handle].  Strategy 500 [step].
 
@@ -175,7 +175,7 @@ Ltac bsimp := repeat match goal with
 (* ---------- one step = one handler, which never raises, followed by the end-of-step marker ---------- *)
 Lemma handle_ok fuel e s r s' o : handle fuel e s = (r, s', o) -> r = Ok tt.
 Proof.
-  intro H. unfold handle in H. cbn zeta in H. destruct e; unfold api_stop, api_commit, flush_pend in H.
+  intro H. unfold handle in H. cbn zeta in H. destruct e; unfold api_stop, api_commit, api_shutdown, flush_pend in H.
   all: minv; try reflexivity.
   all: try (destruct a; reflexivity).
 Qed.
@@ -277,3 +277,9 @@ Proof.
   induction a as [|x a IH]; [reflexivity|]. destruct x; cbn [app retry_idxs]; try exact IH.
   destruct ((kind =? T_RETRY) && (0 <=? idx)); [cbn [app]; rewrite IH; reflexivity | exact IH].
 Qed.
+
+(* states built with  if <limit is 0> then <suspend unlimited retries> else ...  (shutdown): split on the test *)
+Ltac split_state_if := repeat match goal with
+  | |- context [if ?c then set_susp true _ else _] => let E := fresh "E" in destruct c eqn:E
+  | H : context [if ?c then set_susp true _ else _] |- _ => let E := fresh "E" in destruct c eqn:E
+  end.
